@@ -316,7 +316,9 @@ cfgLoop:
 			cfg.AddLocationFlag = true
 		case "stoprel":
 			cfg.StopTimeS = sc.AtoiPtr(key, val)
-			*cfg.StopTimeS += ms2S(nowMS)
+			if cfg.StopTimeS != nil { // nil after a conversion error (reported below)
+				*cfg.StopTimeS += ms2S(nowMS)
+			}
 			cfg.AddLocationFlag = true
 		case "dur": // Adds a presentation duration for multiple periods
 			cfg.PeriodDurations = append(cfg.PeriodDurations, sc.Atoi(key, val))
